@@ -317,6 +317,40 @@ class Extractor:
                 elif isinstance(recv, ast.Name):
                     for x in names_in(n.args[-1]):
                         flows.setdefault(x, set()).add(recv.id)
+        # A value is discarded when no name it flows into is ever read except as the source of another such flow (and none
+        # reaches a field, a return or a yield): count all loads of a name and the loads that are flow sources
+        loads: dict[str, int] = {}
+        for n in ast.walk(fi.node):
+            if isinstance(n, ast.Name) and isinstance(n.ctx, ast.Load):
+                loads[n.id] = loads.get(n.id, 0) + 1
+        flow_loads: dict[str, int] = {}
+        for n in walk_own(fi.node):
+            src = None
+            if isinstance(n, ast.Assign) and len(n.targets) == 1 and isinstance(n.targets[0], ast.Name):
+                src = n.value
+            elif isinstance(n, ast.AugAssign) and isinstance(n.target, ast.Name):
+                src = n.value
+            elif isinstance(n, ast.Call) and isinstance(n.func, ast.Attribute) and n.func.attr in ("append", "extend", "insert", "add") and n.args and isinstance(n.func.value, ast.Name):
+                src = n.args[-1]
+            if src is not None:
+                for x in ast.walk(src):
+                    if isinstance(x, ast.Name) and isinstance(x.ctx, ast.Load):
+                        flow_loads[x.id] = flow_loads.get(x.id, 0) + 1
+        assigned_locals = {n.targets[0].id for n in walk_own(fi.node) if isinstance(n, ast.Assign) and len(n.targets) == 1 and isinstance(n.targets[0], ast.Name)}
+
+        def flowset(name, seen=None):
+            seen = seen if seen is not None else set()
+            if name in seen:
+                return seen
+            seen.add(name)
+            for y in flows.get(name, ()):
+                flowset(y, seen)
+            return seen
+
+        def dead(name) -> bool:
+            fs = flowset(name)
+            return name in assigned_locals and all(x in assigned_locals and loads.get(x, 0) == flow_loads.get(x, 0) for x in fs)
+
         def closure(name, seen=None):
             seen = seen or set()
             if name in seen:
@@ -329,7 +363,9 @@ class Extractor:
         def visit(lst):
             for a in lst:
                 if isinstance(a, (Emit, Call, GenLoop, Loop)) and a.dest:
-                    a.sinks = a.sinks | frozenset(closure(a.dest))
+                    reached = closure(a.dest)
+                    # a local that is computed from the text and then flows into no field, no return and no yield: the text goes nowhere
+                    a.sinks = a.sinks | (frozenset(reached) if reached else frozenset(["<discarded>"]) if dead(a.dest) else frozenset())
                 if isinstance(a, (Loop, GenLoop, Same)):
                     visit(a.body)
                 elif isinstance(a, Guard):
